@@ -13,9 +13,9 @@ def st(name, flavour, cases, budget, **kw):
 CHECKS = {
     "C01": {
         "stages": [
-            st("main", "rel", [1500, 40000], [25, 420]),
-            st("avx2", "avx2", [300, 8000], [20, 300]),
-            st("dbgassert", "relda", [300, 6000], [20, 300], shards=8),
+            st("main", "rel", [1500, 200000], [25, 420]),
+            st("avx2", "avx2", [300, 40000], [20, 240]),
+            st("dbgassert", "relda", [300, 30000], [20, 240], shards=8),
             st("asan", "asan", [0, 1500], [0, 300], thorough_only=True, shards=8),
         ],
         "rule": "case = generated dictionary (1-6 categories, overlapping ranges, matrix/raw/dual connector, optional user lexicon, "
@@ -30,9 +30,9 @@ CHECKS = {
     },
     "C02": {
         "stages": [
-            st("main", "rel", [1500, 40000], [25, 420]),
-            st("avx2", "avx2", [300, 8000], [20, 300]),
-            st("dbgassert", "relda", [300, 6000], [20, 300], shards=8),
+            st("main", "rel", [1500, 200000], [25, 420]),
+            st("avx2", "avx2", [300, 40000], [20, 240]),
+            st("dbgassert", "relda", [300, 30000], [20, 240], shards=8),
         ],
         "rule": "same generator as C01, 30% tie-heavy dictionaries; every non-empty tokenization is judged (a) by an independent i64 DP over "
                 "the dumped lattice (Viterbi recurrence of every node and of EOS, back-pointers, reported tokens = back-pointer chain, "
@@ -45,9 +45,9 @@ CHECKS = {
     },
     "C03": {
         "stages": [
-            st("main", "rel", [1500, 40000], [25, 420]),
-            st("avx2", "avx2", [300, 8000], [20, 300]),
-            st("dbgassert", "relda", [300, 6000], [20, 300], shards=8),
+            st("main", "rel", [1500, 200000], [25, 420]),
+            st("avx2", "avx2", [300, 40000], [20, 240]),
+            st("dbgassert", "relda", [300, 30000], [20, 240], shards=8),
         ],
         "rule": "generated dictionaries sweeping invoke/group/length, max_grouping_len and overlapping/multi-category ranges; for every "
                 "sentence the multiset of lattice nodes per start position (end, lexicon type, ids, cost, feature, row index) is compared "
@@ -61,7 +61,7 @@ CHECKS = {
     },
     "C04": {
         "stages": [
-            st("main", "rel", [250, 6000], [25, 400]),
+            st("main", "rel", [250, 30000], [25, 400]),
             st("dbgassert", "relda", [60, 1000], [20, 200], shards=4),
             st("tsan", "tsan", [40, 800], [30, 300], shards=4, concurrent=True),
             st("miri", "miri", [0, 1], [0, 1500], thorough_only=True, shards=1, watchdog_factor=2,
@@ -81,7 +81,7 @@ CHECKS = {
     },
     "C06": {
         "stages": [
-            st("main", "rel", [800, 20000], [25, 400]),
+            st("main", "rel", [800, 100000], [25, 400]),
             st("avx2", "avx2", [200, 4000], [20, 300]),
             st("dbgassert", "relda", [200, 3000], [20, 200], shards=8),
         ],
@@ -98,7 +98,7 @@ CHECKS = {
     },
     "C08": {
         "stages": [
-            st("main", "rel", [600, 15000], [25, 400]),
+            st("main", "rel", [600, 80000], [25, 400]),
             st("avx2", "avx2", [150, 3000], [20, 300]),
             st("dbgassert", "relda", [150, 2500], [20, 200], shards=8),
             st("asan", "asan", [0, 600], [0, 300], thorough_only=True, shards=8),
@@ -116,7 +116,7 @@ CHECKS = {
     },
     "C12": {
         "stages": [
-            st("main", "rel", [1200, 30000], [25, 400]),
+            st("main", "rel", [1200, 150000], [25, 400]),
             st("avx2", "avx2", [250, 5000], [20, 300]),
             st("dbgassert", "relda", [250, 4000], [20, 200], shards=8),
         ],
@@ -132,7 +132,7 @@ CHECKS = {
     },
     "C05": {
         "stages": [
-            st("main", "rel", [300, 6000], [30, 400]),
+            st("main", "rel", [300, 30000], [30, 400]),
             st("avx2", "avx2", [60, 250], [30, 400]),
             st("back", "rel", [60, 250], [30, 400]),
             st("dbgassert", "relda", [60, 1000], [20, 200], shards=8),
@@ -151,8 +151,8 @@ CHECKS = {
     },
     "C07": {
         "stages": [
-            st("main", "rel", [600, 15000], [30, 400]),
-            st("avx2", "avx2", [600, 15000], [30, 400]),
+            st("main", "rel", [600, 60000], [30, 400]),
+            st("avx2", "avx2", [600, 60000], [30, 400]),
             st("dbgassert", "relda", [100, 2000], [20, 200], shards=8),
             st("miri", "miri", [25, 200], [240, 900], shards=4, watchdog_factor=3, concurrent=True),
             st("miri-avx2", "miri-avx2", [25, 200], [240, 900], shards=4, watchdog_factor=3, concurrent=True),
@@ -195,7 +195,7 @@ CHECKS = {
     },
     "C11": {
         "stages": [
-            st("main", "rel", [4000, 100000], [25, 400]),
+            st("main", "rel", [4000, 500000], [25, 400]),
             st("dbgassert", "relda", [800, 10000], [20, 200], shards=8),
         ],
         "rule": "random lexicon CSVs (system and user side): surfaces with commas, quotes, spaces, 1-4-byte text, duplicates and prefixes of "
@@ -210,7 +210,7 @@ CHECKS = {
     },
     "C13": {
         "stages": [
-            st("main", "rel", [1500, 30000], [25, 400]),
+            st("main", "rel", [1500, 150000], [25, 400]),
             st("dbgassert", "relda", [300, 5000], [20, 200], shards=8),
             st("cli", "rel", [3, 60], [60, 400], needs_cli=True),
         ],
@@ -229,7 +229,7 @@ CHECKS = {
     },
     "C10": {
         "stages": [
-            st("main", "rel", [1500, 60000], [30, 500]),
+            st("main", "rel", [1500, 300000], [30, 500]),
             st("dbgassert", "relda", [400, 10000], [25, 300], shards=8),
             st("asan", "asan", [0, 1500], [0, 300], thorough_only=True, shards=8),
         ],
@@ -251,7 +251,7 @@ CHECKS = {
     },
     "C14": {
         "stages": [
-            st("main", "rel", [150, 2500], [60, 500]),
+            st("main", "rel", [150, 12000], [60, 500]),
             st("dbgassert", "relda", [30, 300], [40, 300], shards=8),
         ],
         "rule": "case = a random small training configuration (2-5 categories, 3-26 seed rows with quoted cells and homographs, unk.def rows in "
@@ -269,7 +269,7 @@ CHECKS = {
     },
     "C15": {
         "stages": [
-            st("main", "rel", [150, 2500], [60, 500]),
+            st("main", "rel", [150, 12000], [60, 500]),
             st("dbgassert", "relda", [30, 300], [40, 300], shards=8),
             st("cli", "rel", [2, 40], [60, 400], needs_cli=True),
         ],
@@ -287,7 +287,7 @@ CHECKS = {
     },
     "C16": {
         "stages": [
-            st("main", "rel", [150, 2500], [60, 500]),
+            st("main", "rel", [150, 12000], [60, 500]),
             st("avx2", "avx2", [40, 600], [40, 400], shards=8),
             st("dbgassert", "relda", [30, 300], [40, 300], shards=8),
         ],
@@ -320,7 +320,7 @@ CHECKS = {
     },
     "C18": {
         "stages": [
-            st("main", "rel", [400, 6000], [60, 500]),
+            st("main", "rel", [400, 30000], [60, 500]),
             st("dbgassert", "relda", [60, 600], [40, 300], shards=8),
         ],
         "rule": "two thirds of the cases (function hook): random template sets (%F/%L/%R, optional %X?[i], %t, literal prefixes, repeated and "
@@ -336,7 +336,7 @@ CHECKS = {
     },
     "C19": {
         "stages": [
-            st("main", "rel", [1000, 20000], [40, 400], needs_cli=True),
+            st("main", "rel", [1000, 100000], [40, 400], needs_cli=True),
             st("dbgassert", "relda", [200, 2000], [20, 200], shards=8),
         ],
         "rule": "structured corpora (surfaces/features containing EOS, spaces, commas, quotes, multi-byte text; empty sentences) are serialised, "
@@ -350,7 +350,7 @@ CHECKS = {
     },
     "C20": {
         "stages": [
-            st("main", "rel", [800, 20000], [30, 400]),
+            st("main", "rel", [800, 100000], [30, 400]),
             st("dbgassert", "relda", [200, 2000], [20, 200], shards=8),
         ],
         "rule": "random MeCab model descriptions: 1-6 BIGRAM templates with %L/%R and optional %L?/%R? references, id tables of different sizes "
